@@ -119,13 +119,70 @@ theorem translateSegments_ok (cfg : SegCfg) {c : Comp} (h : SegsOK c.segs) :
 
 /-- the concrete Compose satisfies the hypothesis of the session theorems, for every translation
 oracle and every alphabet configuration -/
-theorem compose_spec (cfg : SegCfg) : ComposeSpec (compose cfg) := by
-  intro input caret c h
-  unfold compose
+theorem addSegment_input (c : Comp) (g : Seg) : (c.addSegment g).1.input = c.input := by
+  unfold Comp.addSegment
+  (repeat' split) <;> rfl
+
+theorem abcProceed_input (cfg : SegCfg) (c : Comp) : (abcProceed cfg c).input = c.input := by
+  unfold abcProceed
   dsimp only
-  refine translateSegments_ok cfg (calculateSegmentation_ok cfg caret ?_)
   split
-  · exact reset_ok (reset_ok h _) _
-  · exact reset_ok h _
+  · exact addSegment_input _ _
+  · rfl
+
+theorem dropEmptyLast_input (c : Comp) : (dropEmptyLast c).input = c.input := by
+  unfold dropEmptyLast
+  (repeat' split) <;> rfl
+
+theorem addRaw_input (c : Comp) (k : Nat) : (addRaw c k).input = c.input := by
+  unfold addRaw
+  rw [addSegment_input, forward_input]
+
+theorem fallbackProceed_input (c : Comp) : (fallbackProceed c).input = c.input := by
+  unfold fallbackProceed
+  dsimp only
+  (repeat' split) <;> first | rfl | exact dropEmptyLast_input c | (rw [addRaw_input]; exact dropEmptyLast_input c)
+
+theorem segLoop_input (cfg : SegCfg) (caret : Nat) : ∀ (fuel : Nat) (c : Comp), (segLoop cfg caret fuel c).input = c.input
+  | 0, _ => rfl
+  | fuel + 1, c => by
+    have h1 : (fallbackProceed (abcProceed cfg c)).input = c.input := by
+      rw [fallbackProceed_input, abcProceed_input]
+    unfold segLoop
+    dsimp only
+    (repeat' split) <;> first
+      | rfl
+      | exact h1
+      | (rw [segLoop_input cfg caret fuel, forward_input]; exact h1)
+      | (rw [segLoop_input cfg caret fuel]; exact h1)
+
+theorem calculateSegmentation_input (cfg : SegCfg) (caret : Nat) (c : Comp) :
+    (calculateSegmentation cfg caret c).input = c.input := by
+  unfold calculateSegmentation forwardIfSelected trimUnlessPlaceholder
+  (repeat' split) <;> simp only [forward_input, trim_input, segLoop_input]
+
+theorem reset_input (c : Comp) (ni : Bytes) : (c.reset ni).input = ni := by
+  unfold Comp.reset
+  rfl
+
+/-- the concrete Compose satisfies the hypothesis of the session theorems, for every translation
+oracle and every alphabet configuration -/
+theorem compose_spec (cfg : SegCfg) : ComposeSpec (compose cfg) := by
+  refine ⟨?_, ?_⟩
+  · intro input caret c h
+    unfold compose
+    dsimp only
+    refine translateSegments_ok cfg (calculateSegmentation_ok cfg caret ?_)
+    split
+    · exact reset_ok (reset_ok h _) _
+    · exact reset_ok h _
+  · intro input caret c
+    unfold compose
+    dsimp only
+    show (calculateSegmentation cfg caret _).input.length ≤ input.length
+    rw [calculateSegmentation_input]
+    split
+    · rw [reset_input]; exact Nat.le_refl _
+    · rw [reset_input]; simp only [List.length_take]; omega
 
 end RimeModel.Session
